@@ -695,7 +695,14 @@ func New() Beacon {
 func (b *beacon) GetAll() map[string]treasure.Treasure {
 	b.mu.RLock()
 	defer b.mu.RUnlock()
-	return b.treasuresByKeys
+	// Return a snapshot, not the internal map: callers iterate the result after the lock is
+	// released, and a concurrent Add/Delete on the internal map would be a data race (the Go
+	// runtime aborts the whole process on "concurrent map iteration and map write").
+	all := make(map[string]treasure.Treasure, len(b.treasuresByKeys))
+	for k, t := range b.treasuresByKeys {
+		all[k] = t
+	}
+	return all
 }
 
 type IterationType int
